@@ -608,14 +608,15 @@ theorem primFacetsA_no_values (A : App) (h : A.values = []) : primFacetsA A = pr
   have : A.extraVals p = [] := by cases p <;> simp [App.extraVals, h]
   simp [primFacetsA, App.enumLits, this]
 
-theorem lxml_soft_agree_gen (F : Facts08) (X : FactsXml) (A : App) (hwf : A.wf = true) (hnv : A.values = [])
+theorem lxml_soft_agree_gen (F : Facts08) (X : FactsXml) (A : App) (hwf : A.wf = true)
+    (hsn : A.sameNsChains = true) (hnv : A.values = [])
     (C : ClassDef) (hC : C ∈ A.iface.classes) (ns name : Text) (text : Option Text) (children : List Node)
     (hkey : (ns, name) = (C.ns, C.name))
     (hcf : commonForm F X A.tns C.ns (ClassDef.toTy C) (.elem ns name [] text children) = true) :
     (gen A).valid (.elem ns name [] text children) =
       softAccepts F X A.iface (ClassDef.toTy C) (.elem ns name [] text children) := by
   have hCa : C ∈ A.allClasses := List.mem_append.mpr (Or.inl hC)
-  rw [valid_gen A hwf C hC _ (by simpa [nodeKey] using hkey)]
+  rw [valid_gen_same A hwf hsn C hC _ (by simpa [nodeKey] using hkey)]
   have h := soft_eq_validS F X A.facts A.iface (.elem ns name [] text children) (ClassDef.toTy C) C.ns
     (tyWf_toTy A hwf C hCa) hcf
   rw [validS_no_attrs _ false (ClassDef.toTy C).occ.nillable, primFacetsA_no_values A hnv]
